@@ -61,6 +61,13 @@ def handle : List String → Option String
     let s ← parseRat? s; let dim ← dim.toNat?
     let xs ← parseRats? xs; let rows ← parseRows? rows; let xnew ← parseRats? xnew
     pure (showExc (lagrange xs rows dim w be srt s xnew))
+  | ["c20", "lagderiv", w, be, srt, s, dim, xs, rows, xnew, dx] => do
+    let w ← w.toNat?; let be ← parseBool? be; let srt ← parseBool? srt
+    let s ← parseRat? s; let dim ← dim.toNat?; let dx ← parseRat? dx
+    let xs ← parseRats? xs; let rows ← parseRows? rows; let xnew ← parseRats? xnew
+    match lagrangeDeriv xs rows dim w be srt s xnew dx with
+    | .error e => pure ("err " ++ showErr e)
+    | .ok (v, d) => pure ("ok " ++ showRows v ++ " " ++ showRows d)
   | ["c20", "linear", dim, xs, rows, xnew] => do
     let dim ← dim.toNat?
     let xs ← parseRats? xs; let rows ← parseRows? rows; let xnew ← parseRats? xnew
